@@ -121,7 +121,7 @@ class C17(common.Prop):
             "1e-4 on well-conditioned cells (exact clauses - zero under the mask, finiteness - on all cells). layout cases: "
             "1..3 components, limb chains present / absent / out of range, 0..2 modules per group, channel count equal / "
             "different from the format length. non-trivial = at least one valid non-degenerate cell or a constructible "
-            "representation; distinct by content hash")
+            "representation; distinct by content hash " "Figures of size 2^-20 .. 2^7; Torch inputs contiguous, transposed-storage or strided.")
     TRUSTED = ["Coq 8.16.1 kernel", "harness/translate_c17.py (fail-closed ast translator)",
                "extraction: ExtrOcamlBasic, ExtrOCamlFloats, ExtrOCamlInt63; runner/driver.ml",
                "harness/c17.py: float64 reference formulas, conditioning rule, tolerance 1e-4",
